@@ -446,6 +446,47 @@ def rule_total(which, floor):
     return f
 
 
+def rule_bits(crate, prop, tier):
+    """BITS: every write into AdjacencyMatrix::blocks anywhere in the crate is a read-modify-write of one cell's bit:
+    blocks[i >> 6] = old | (1 << (i & 63)), old ^ (..), old & !(..) with the same i; a whole-word write (generator
+    shortcuts, block fills) bypasses the row-major cell addressing that every reader uses"""
+    from .schema import load_parts
+    o = Obl("BITS")
+    AM = "graaf::repr::adjacency_matrix::AdjacencyMatrix"
+    n = 0
+    for p in crate.fn_paths():
+        an = crate.an(p)
+        for ev in an.events:
+            if ev["k"] != "store":
+                continue
+            c, idx = store_elem(ev)
+            R = region_of_container(c) if c else None
+            ri = an.region_info.get(R) if R else None
+            if not (ri and ri.get("chain") and ri["chain"][-1] == (AM, "blocks")):
+                continue
+            n += 1
+            v = ev["val"]
+            ok = False
+            if v[0] == "bin" and v[1] in ("BitOr", "BitXor", "BitAnd") and idx is not None and idx[0] == "bin" and idx[1] == "Shr" \
+                    and idx[3][0] == "const" and idx[3][2] == 6:
+                i = idx[2]
+                for old, m in ((v[2], v[3]), (v[3], v[2])):
+                    r, li = load_parts(old)
+                    if r != R or li != idx:
+                        continue
+                    if v[1] == "BitAnd":
+                        if not (m[0] == "un" and m[1] == "Not"):
+                            continue
+                        m = m[2]
+                    if m[0] == "bin" and m[1] == "Shl" and m[2][0] == "const" and m[2][2] == 1 and \
+                            m[3] in (("bin", "BitAnd", i, ("const", "usize", 63)), ("bin", "BitAnd", ("const", "usize", 63), i)):
+                        ok = True
+            o.check(ok, crate.prog.pretty[p], "bit-read-modify-write", "a word of the bit matrix is written other than by setting, flipping "
+                    "or clearing the bit of one cell (i >> 6, 1 << (i & 63))", ev["span"])
+    o.instances = n
+    return o.report(floors={"bit-matrix writes": (n, 3)})
+
+
 def rule_encaps(crate, prop, tier):
     o = Obl("ENCAPS")
     prog = crate.prog
